@@ -361,10 +361,14 @@ def gen_cases_ext(rng, tier, n_classes, immutable=False):
         if rng.random() < 0.45:
             case = dict(case, cls=json.loads(json.dumps(case["cls"])), kw=list(case["kw"]))
             fields = case["cls"]["fields"]
-            fmt = rng.choice(["date:%Y-%m-%d", "date:%d/%m/%Y", "time", "ipv4", "hostname", "json"])
-            good = [v for v in formats.POOL if doc_formats.ok(fmt, v)]
-            fields.append(["z", {"k": "string", "fmt": fmt}])
-            fields.append(["y", {"k": "seqOf", "item": {"k": "string", "fmt": fmt}}])
+            zd = gen.DeclGen(rng).xstring()       # SizedString / IPV4 / HostName / DateString(format) / TimeString / JSONString
+            good = [v for v in (vg.valid(zd) for _ in range(6)) if v is not gen.NOVALUE]
+            good += [v for v in formats.POOL + ["", "a", "ab"] if vg.guess_str_ok(zd, v)][:4]
+            if not good:
+                zd = {"k": "string", "fmt": "time"}
+                good = ["10:20:30", "1:2:3"]
+            fields.append(["z", zd])
+            fields.append(["y", {"k": "seqOf", "item": zd}])
             if rng.random() < 0.5:
                 case["cls"]["required"] = sorted(case["cls"]["required"] + ["z"])
                 case["kw"].append(["z", rng.choice(good)])
@@ -444,6 +448,27 @@ def gen_cases_ext(rng, tier, n_classes, immutable=False):
                 ops.append(op)
         for fo in fmt_ops:
             ops.insert(rng.randrange(len(ops) + 1), fo)
+        # typed collections of STRUCTURES (Array[Cls] / Deque[Cls] / Map[String, Cls]): mutators with instances as arguments
+        if rng.random() < 0.3 and not any(n == "s" for n, _ in case["cls"]["fields"]):
+            case = dict(case, cls=json.loads(json.dumps(case["cls"])), kw=list(case["kw"]))
+            sdg = gen.DeclGen(rng, max_depth=1)
+            sdg.counter = 50 + len(out)          # class names distinct from the ones the base case already uses
+            item = sdg.class_decl(depth=1, n_fields=rng.randint(1, 2))
+            C.fix_accepts(item)
+            sfd = rng.choice([{"k": "seqOf", "item": item}, {"k": "seqOf", "item": item, "seq": "deque"},
+                              {"k": "mapOf", "key": {"k": "string"}, "val": item}, {"k": "seqOf", "item": item, "maxItems": 2}])
+            inst = lambda: vg.valid(item)
+            v0 = inst()
+            if v0 is not gen.NOVALUE:
+                case["cls"]["fields"].append(["s", sfd])
+                C.fix_accepts(case["cls"])
+                start = {"m": [["k", v0]]} if sfd["k"] == "mapOf" else ({"q": [v0]} if sfd.get("seq") == "deque" else {"l": [v0]})
+                case["kw"].append(["s", start])
+                skind = wrapper_kind(sfd)
+                for _ in range(rng.randint(2, 5)):
+                    call = gen_ext_call(rng, vg, tbl, skind, sfd, start)
+                    if call:
+                        ops.insert(rng.randrange(len(ops) + 1), {"op": "call", "f": "s", "m": call[0], "args": call[1], **call[2]})
         # typed wrappers at nesting depth 2 and 3 (x.w[i][j].append(v)): addressed by a path of keys
         if rng.random() < 0.35 and not any(n == "w" for n, _ in case["cls"]["fields"]):
             case = dict(case, cls=json.loads(json.dumps(case["cls"])), kw=list(case["kw"]))
